@@ -16,6 +16,7 @@ import (
 	"strings"
 	"sync"
 	"sync/atomic"
+	"syscall"
 	"time"
 
 	"github.com/emersion/go-imap/v2"
@@ -967,14 +968,22 @@ func c11Shape(shape string, n int) (spec string, stream []byte) {
 	return spec, sb.Bytes()
 }
 
+// c11CPU is the CPU time (user+system) this process has used: unlike wall-clock time it does
+// not grow when other processes compete for the machine.
+func c11CPU() time.Duration {
+	var ru syscall.Rusage
+	syscall.Getrusage(syscall.RUSAGE_SELF, &ru)
+	return time.Duration(ru.Utime.Nano() + ru.Stime.Nano())
+}
+
 func c11Measure(spec string, stream []byte, reps int) (best time.Duration, alloc uint64, class string) {
 	for i := 0; i < reps; i++ {
 		runtime.GC()
 		var m0, m1 runtime.MemStats
 		runtime.ReadMemStats(&m0)
-		t0 := time.Now()
+		t0 := c11CPU()
 		obs := c11Run(spec, stream)
-		d := time.Since(t0)
+		d := c11CPU() - t0
 		runtime.ReadMemStats(&m1)
 		al := m1.TotalAlloc - m0.TotalAlloc
 		if i == 0 || d < best {
@@ -1947,14 +1956,21 @@ func c11RunCases(e *emitter, cases []c11Case, timeout time.Duration) {
 
 func genC11(e *emitter, tier string, seed uint64) {
 	cases, costs := c11Generate(tier, seed)
-	// cost cases run alone first (nothing else of this check competes for the CPU)
-	pool := &workerPool{name: "c11", timeout: 90 * time.Second, memMB: 3072, maxBad: 20}
+	// The cost measurements run next to the streams. Their verdict is coarse enough for the
+	// noise this adds (see Spec: doubled input must take >= 1 s and > 3.2x as long).
 	reqs := make([]string, len(costs))
 	for i, c := range costs {
 		reqs[i] = "cost\t" + c[0] + "\t" + c[1]
 	}
-	ans := pool.run(reqs)
+	var ans []string
+	done := make(chan struct{})
+	go func() {
+		defer close(done)
+		pool := &workerPool{name: "c11", timeout: 120 * time.Second, memMB: 3072, maxBad: 20}
+		ans = pool.run(reqs)
+	}()
 	c11RunCases(e, cases, 10*time.Second)
+	<-done
 	for i, c := range costs {
 		e.emit("cost", c[0], c[1], ans[i])
 		e.count("cost:" + c[0])
